@@ -106,18 +106,10 @@ def _batch_iter_post(S, o):
 
 
 def _batch_getitem_post(S, o):
-    """I-idx for batch, with one refinement for drop_last: ds[len(ds)] evaluates the
-    examples of the incomplete tail before it finds the end of the data, so an exception
-    of such an example may surface instead of the IndexError."""
-    v = self_view(S)
-    base = post_getitem_int(self_view)(S, o)
-    if o.kind != 'raise':
-        return base
-    it = S.old.item
-    n = v.n()
-    itn = z3.If(it < 0, it + n, it)
-    tail = z3.And(v.drop, itn == n, itn * v.b < v.inp.n(), v.raises(itn), o.exc.t == v.exc(itn))
-    return [(nme, z3.Or(g, tail)) for nme, g in base]
+    """I-idx for batch, strictly: an index outside [-len, len) is an IndexError and evaluates nothing (for drop_last the
+    examples of the incomplete tail are not loaded: repo fix F29; the earlier refinement that let an exception of such an
+    example surface instead of the IndexError is gone)."""
+    return post_getitem_int(self_view)(S, o)
 
 
 def _batch_iter_variants():
